@@ -1,5 +1,6 @@
 import HC.Stream.Http
 import HC.Stream.Ws
+import HC.Extracted.AppExit
 /-!
 # C12 — invalid application messages are rejected without corrupting the wire
 
@@ -258,6 +259,82 @@ theorem one_final_head (ms : List (Option Http.Msg)) :
     have h1 := step_head s m
     have h2 := ih (Http.appSend s m).1
     simp only [countFinalHeads_append]; omega
+
+/-! ### any accepted start is THE response start - interim statuses included -/
+
+/-- **an accepted `http.response.start` moves the request from REQUEST to RESPONSE whatever its status** - 100, 102, 103,
+    199 exactly as 200 or 404: the successor state does not depend on the status -/
+theorem accepted_start_moves_on (s : Http.S) (status : Option Nat) (hs : Option (List (HV × HV))) (tr : Bool)
+    (h : (Http.appSend s (some (.start status hs tr))).2.2 = none) :
+    s.st = .request ∧ (Http.appSend s (some (.start status hs tr))).1.st = .response := by
+  simp only [Http.appSend] at h ⊢
+  (repeat' split at h) <;> simp_all
+
+/-- the statement order of the source agrees: the `http.response.start` branch of `HTTPStream.app_send`, as the extractor
+    reads it off the source on every run (a conditional statement in that branch is not a recognised shape), assigns
+    RESPONSE after the head was handed over - unconditionally, there is no status in sight -/
+theorem source_start_always_advances :
+    AppExit.runBranch HC.Extracted.AppExit.httpStartBranch none {} = { st := .response, responseSent := true } := by decide
+
+/-- REQUEST is never re-entered -/
+theorem request_not_reentered (s : Http.S) (m : Option Http.Msg) (h : s.st ≠ .request) : (Http.appSend s m).1.st ≠ .request := by
+  cases m with
+  | none => simp only [Http.appSend]; (repeat' split) <;> simp_all
+  | some m => cases m <;> simp only [Http.appSend, Http.sendClosed] <;> (repeat' split) <;> simp_all
+
+theorem request_not_reentered_feed (ms : List (Option Http.Msg)) : ∀ s : Http.S, s.st ≠ .request → (Http.feed s ms).1.st ≠ .request := by
+  induction ms with
+  | nil => intro s h; simpa [Http.feed] using h
+  | cons m ms ih => intro s h; simp only [Http.feed]; exact ih _ (request_not_reentered s m h)
+
+/-- **a second response start raises and hands nothing to the protocol** - whatever the status of the first start (an
+    interim one included) and whatever the application sent in between -/
+theorem second_start_rejected (s : Http.S) (status : Option Nat) (hs : Option (List (HV × HV))) (tr : Bool)
+    (hacc : (Http.appSend s (some (.start status hs tr))).2.2 = none) (ms : List (Option Http.Msg))
+    (status' : Option Nat) (hs' : Option (List (HV × HV))) (tr' : Bool) :
+    Http.appSend (Http.feed (Http.appSend s (some (.start status hs tr))).1 ms).1 (some (.start status' hs' tr')) =
+      ((Http.feed (Http.appSend s (some (.start status hs tr))).1 ms).1, [], some .unexpectedMessage) := by
+  have h1 : (Http.appSend s (some (.start status hs tr))).1.st ≠ .request := by
+    rw [(accepted_start_moves_on s status hs tr hacc).2]; decide
+  have h2 := request_not_reentered_feed ms _ h1
+  generalize (Http.feed (Http.appSend s (some (.start status hs tr))).1 ms).1 = s' at h2 ⊢
+  simp [Http.appSend, h2]
+
+/-- response heads of ANY status (interim or final) handed to the protocol for the request -/
+def countHeads : List Http.Ev → Nat
+  | [] => 0
+  | .response _ _ :: r => 1 + countHeads r
+  | _ :: r => countHeads r
+
+@[simp] theorem countHeads_append (a b : List Http.Ev) : countHeads (a ++ b) = countHeads a + countHeads b := by
+  induction a with
+  | nil => simp [countHeads]
+  | cons x xs ih => cases x <;> simp [countHeads, ih] <;> omega
+
+theorem step_heads (s : Http.S) (m : Option Http.Msg) :
+    countHeads (Http.appSend s m).2.1 + budgetHead (Http.appSend s m).1 ≤ budgetHead s := by
+  cases m with
+  | none => simp only [Http.appSend]; (repeat' split) <;> simp_all [budgetHead, countHeads]
+  | some m =>
+    cases m <;> simp only [Http.appSend, Http.sendClosed, Http.bodyEv] <;> (repeat' split) <;>
+      simp_all [budgetHead, countHeads] <;> grind [countHeads]
+
+/-- **at most one `Response` event per request, counting interim statuses too**: a start with status 102 uses up the
+    request's one response start just as a start with status 200 does (early hints are `InformationalResponse` events) -/
+theorem one_response_start (ms : List (Option Http.Msg)) :
+    ∀ s, countHeads (Http.feed s ms).2 + budgetHead (Http.feed s ms).1 ≤ budgetHead s := by
+  induction ms with
+  | nil => intro s; simp [Http.feed, countHeads]
+  | cons m ms ih =>
+    intro s
+    simp only [Http.feed]
+    have h1 := step_heads s m
+    have h2 := ih (Http.appSend s m).1
+    simp only [countHeads_append]; omega
+
+example : (Http.feed { method := "GET", version := "2" }
+    [some (.start (some 102) (some []) false), some (.start (some 200) (some []) false), some (.body none false)]).2 =
+    [.response 102 [], .endBody, .access (some 102), .streamClosed] := by decide
 
 /-- **nothing follows the end of the response** but the stream-closed notification of the exiting application -/
 theorem nothing_after_end (ms : List (Option Http.Msg)) :
